@@ -41,6 +41,7 @@ package reader
 //@   ensures [enqueued-once] len(out) == old(len(out)) + 1 && out[old(len(out))] == msg
 //@   ensures forall i int :: 0 <= i && i < old(len(out)) ==> out[i] == old(out[i])
 //@   modifies out
+//@   unreachable return@1
 
 // ---- C06 / C01: hand-over of one pack from a stream to the downstream output ----------------------
 //@ func (*replicateChannelHandler).innerHandleReplicateMsg
